@@ -33,18 +33,23 @@ Section Profiles.
   Definition splice (foo sm : list T) (border : nat) : list T :=
     firstn border foo ++ sm ++ skipn (length foo - border) foo.
 
+  (* interpolate the node values over ascending log-pressure, smooth with a moving average of odd width, splice the
+     smoothed middle back between the unsmoothed borders, return in layer order (also TwoLayerGas, in log10 space) *)
+  Definition smooth_profile (lp lpn tn : list T) (wsize0 : nat) : list T :=
+    let TP := map (np_interp (rev lpn) (rev tn)) (rev lp) in        (* ascending log-pressure *)
+    let wsize := if Nat.even wsize0 then S wsize0 else wsize0 in
+    let sm := movavg TP wsize in
+    let border := ((length TP - length sm) / 2)%nat in
+    let foo := rev TP in
+    if (length sm =? length foo)%nat then rev sm else splice foo (rev sm) border.
+
   Definition npoint (nl : nat) (lp lpn tn : list T) (wsize0 : nat) (limit : T) : option (list T) :=
     if negb (strictly_decreasing lpn) then None
     else if negb (slopes_ok lpn tn limit) then None
     else
       (* the code's `np.all(Tnodes == Tnodes[0])` shortcut compares a Python list with a float and is
          never taken; equal nodes go through the general path, which returns the same constant *)
-      let TP := map (np_interp (rev lpn) (rev tn)) (rev lp) in        (* ascending log-pressure *)
-      let wsize := if Nat.even wsize0 then S wsize0 else wsize0 in
-      let sm := movavg TP wsize in
-      let border := ((length TP - length sm) / 2)%nat in
-      let foo := rev TP in
-      Some (if (length sm =? length foo)%nat then rev sm else splice foo (rev sm) border).
+      Some (smooth_profile lp lpn tn wsize0).
 
   (* ---- Rodgers (layer-by-layer with correlation) ----
      weights = cov[i][j] / colsum[i],  colsum[i] = sum_k cov[k][i];  T = weights . T_layers *)
